@@ -334,6 +334,8 @@ def applicable_faults(gen, tree):
             out.append(('stray_text', path, len(n['kids']) - 1))
             if len(n['kids']) > 1:
                 out.append(('stray_text', path, 0))
+        if 'model' in d and not d.get('mixed') and not n.get('nil'):
+            out.append(('stray_text', path, -1))      # leading character data, also in a childless element
         if 'model' in d:
             out.append(('extra_child', path, len(n['kids'])))
             if n['kids']:
@@ -382,7 +384,10 @@ def apply_fault(tree, fault):
     elif kind == 'missing_child':
         del n['kids'][detail]
     elif kind == 'stray_text':
-        n['kids'][detail]['tail'] = 'stray text'
+        if detail == -1:
+            n['text'] = 'stray text'
+        else:
+            n['kids'][detail]['tail'] = 'stray text'
     elif kind == 'misplaced_child':
         n['kids'][detail], n['kids'][detail + 1] = n['kids'][detail + 1], n['kids'][detail]
     elif kind == 'dup_key':
